@@ -17,7 +17,13 @@ from .catalogue import MUTANTS, TWINS
 
 
 def _apply(src: str, edits):
-    for old, new in edits:
+    for e in edits:
+        if len(e) == 3 and e[0] == "*":  # ("*", old, new): replace every occurrence
+            if src.count(e[1]) < 1:
+                return None
+            src = src.replace(e[1], e[2])
+            continue
+        old, new = e
         if src.count(old) != 1:
             return None
         src = src.replace(old, new)
@@ -35,7 +41,7 @@ def _job(args):
     repo_root = root or os.environ.get("HVLINT_REPO", "/repo")
     per_file: dict[str, list] = {}
     for e in edits:
-        if len(e) == 3:
+        if len(e) == 3 and e[0] != "*":
             per_file.setdefault(e[0], []).append((e[1], e[2]))
         else:
             per_file.setdefault(rel, []).append(e)
